@@ -351,11 +351,14 @@ def _check_json(ctx: Ctx) -> None:
 
 
 def _dict_table(fn: FuncInfo, name: str) -> Optional[Dict[str, str]]:
-    for n in walk_no_nested(fn.node):
-        if isinstance(n, ast.Assign) and any(isinstance(t, ast.Name) and t.id == name for t in n.targets) \
-                and isinstance(n.value, ast.Dict):
-            return {k.value: norm(v) for k, v in zip(n.value.keys, n.value.values) if isinstance(k, ast.Constant)}
-    return None
+    """the one dict display of the function that maps file EXTENSIONS ('.x' string keys) to callables (names / attributes) - whatever
+    local it is bound to, or subscripted in place"""
+    tabs = [n for n in walk_no_nested(fn.node) if isinstance(n, ast.Dict) and n.keys
+            and all(isinstance(k, ast.Constant) and isinstance(k.value, str) and k.value.startswith('.') for k in n.keys)
+            and all(isinstance(v, (ast.Name, ast.Attribute)) for v in n.values)]
+    if len(tabs) != 1:
+        return None
+    return {k.value: norm(v) for k, v in zip(tabs[0].keys, tabs[0].values)}
 
 
 def _default_ext(fn: FuncInfo) -> Set[str]:
